@@ -250,6 +250,16 @@ def run(tier, seed):
         vecs, complete = P.seed_vectors(rng, n, 3, 4)
         for bv in vecs:
             one(ctx, A, p, "near-collision", eps, suc, box, bv)
+    # exactly-zero end coefficients INSIDE the box, where the unchanged tree returns for every root choice (small n or a
+    # generous eps): the capitalisation has to land on the outermost powers of the vector as given
+    for n, eps in [(2, 1e-4), (2, 1e-3), (3, 1e-4), (4, 1e-3), (4, 1e-4), (5, 1e-3), (8, 1e-2), (12, 1e-2), (6, 5e-3), (3, 1e-5)]:
+        v = rng.normal(size=n + 1)
+        v[0] = v[-1] = 0.0
+        if np.abs(v).sum() == 0:
+            continue
+        v = v / np.abs(v).sum() * float(rng.uniform(0.2, 0.9))
+        for _s in range(3):
+            one(ctx, A, [float(x) for x in v], "zero-ends/reliable", eps, 1 - 1e-4 if _s else 0.995, True, [int(b) for b in rng.integers(0, 2, size=32)])
     # beyond the box (n = 14 .. 24, where raising is legitimate): whatever IS returned must honour the budget - ill-conditioned
     # inputs (exactly zero end coefficients, tight eps) are where a weakened final check would let wrong phases through
     for n in ((14, 16, 18, 20, 22, 24) if tier == "quick" else list(range(13, 25)) * 3):
